@@ -74,6 +74,7 @@ namespace AIToolbox::Bandit {
 
     size_t SuccessiveRejectsPolicy::getCurrentPhase() const { return currentPhase_; }
     size_t SuccessiveRejectsPolicy::getCurrentNk() const { return nKNew_; }
+    size_t SuccessiveRejectsPolicy::getPreviousNk() const { return nKOld_; }
 
     double SuccessiveRejectsPolicy::getActionProbability(const size_t & a) const { return a == availableActions_[currentActionId_]; }
     Vector SuccessiveRejectsPolicy::getPolicy() const {
